@@ -10,6 +10,7 @@ import (
 	"os/exec"
 	"path/filepath"
 	"regexp"
+	"runtime/pprof"
 	"sort"
 	"strconv"
 	"strings"
@@ -115,7 +116,7 @@ func main() {
 	entryRe := flag.String("entry", "", "regexp selecting entries")
 	workers := flag.Int("workers", 16, "total worker goroutines")
 	trace := flag.Bool("trace", false, "trace interpreted instructions")
-	slv := flag.String("solver", "z3", "z3|z3-new|cvc5")
+	slv := flag.String("solver", "z3-new", "z3|z3-new|cvc5")
 	noReplay := flag.Bool("noreplay", false, "do not replay models natively")
 	replay := flag.String("replay", "", "replay a stored counterexample file and exit")
 	verbose := flag.Bool("v", false, "verbose")
@@ -133,7 +134,13 @@ func main() {
 		id = args[0]
 		args = args[1:]
 	}
+	cpuprof := flag.String("cpuprofile", "", "write a CPU profile")
 	flag.CommandLine.Parse(args)
+	if *cpuprof != "" {
+		f, _ := os.Create(*cpuprof)
+		pprof.StartCPUProfile(f)
+		defer pprof.StopCPUProfile()
+	}
 	if id == "" && flag.NArg() > 0 {
 		id = flag.Arg(0)
 	}
@@ -149,7 +156,11 @@ func main() {
 	}
 	os.Setenv("VERIF_TIER", *tier)
 	seed, _ := strconv.Atoi(os.Getenv("VERIF_SEED"))
-	os.Exit(runCheck(id, *tier, *entryRe, *workers, *trace, solver.Kind(*slv), !*noReplay, *verbose, *timeout, *maxSec, seed))
+	code := runCheck(id, *tier, *entryRe, *workers, *trace, solver.Kind(*slv), !*noReplay, *verbose, *timeout, *maxSec, seed)
+	if *cpuprof != "" {
+		pprof.StopCPUProfile()
+	}
+	os.Exit(code)
 }
 
 type evidence struct {
@@ -296,6 +307,7 @@ func runCheck(id, tier, entryRe string, workers int, trace bool, sk solver.Kind,
 				r := results[k]
 				fmt.Fprintf(os.Stderr, "%s: paths=%d ret=%d panic=%d pruned=%d aborted=%d oblig=%d+%d viol=%d q=%d wall=%.1fs %v\n", e, r.Stats.Paths, r.Stats.PathsReturn,
 					r.Stats.PathsPanic, r.Stats.PathsPruned, r.Stats.PathsAborted, r.Stats.Obligations, r.Stats.ObligationsCon, len(r.Violations), r.Stats.SolverQueries, r.Wall.Seconds(), r.Inconclusive)
+				fmt.Fprintf(os.Stderr, "   pathtime=%.1fs solvertime=%.1fs send=%.1fs get=%.1fs queries=%d\n", r.PathTime.Seconds(), r.SolverTime.Seconds(), r.SendTime.Seconds(), r.GetTime.Seconds(), r.SolverQueries)
 				for m, c := range r.AbortMsgs {
 					fmt.Fprintf(os.Stderr, "   abort x%d: %s\n", c, m)
 				}
